@@ -7,7 +7,7 @@ fn main() {
     let mut ctx = Ctx::from_args("C18");
     let quick = ctx.quick();
     // validation with well-typed maps: all (G, H, w, x)
-    let (sg, sh) = if quick { (Spec::hyper(2, 1, 2, 2, 2), Spec::hyper(2, 2, 2, 2, 1)) } else { (Spec::hyper(2, 2, 2, 2, 1), Spec::hyper(2, 2, 2, 2, 2)) };
+    let (sg, sh) = if quick { (Spec::hyper(2, 1, 2, 2, 2), Spec::hyper(2, 2, 2, 2, 1)) } else { (Spec::hyper(2, 1, 2, 2, 2), Spec::hyper(2, 2, 2, 2, 2)) };
     let (ug, uh) = (sg.universe().all_open(), sh.universe().all_open());
     let nh = uh.len() as u64;
     ctx.run_slice(Slice::new(format!("typed-maps[G {} x H {}]", sg.name(), sh.name()), ug.len() as u64 * nh, |i, loc| check_all_maps::<B>(&ug[(i / nh) as usize], &uh[(i % nh) as usize], false, loc)));
